@@ -13,7 +13,7 @@ pub(crate) struct C06;
 
 pub(crate) const ENDINGS: &[&str] = &[
     "quit", "quit_reason", "eof", "eof_midline", "eof_midline_cr", "reset", "halfopen_eof", "halfopen_reset", "kill_by_oper", "self_kill",
-    "bad_utf8", "reset_unread_output", "close_unread_output", "two_at_once", "quit_and_eof_same_segment",
+    "bad_utf8", "reset_unread_output", "close_unread_output", "two_at_once", "quit_and_eof_same_segment", "line_too_long", "too_long_unterminated",
 ];
 const POSITIONS: u64 = 5;
 
@@ -91,7 +91,7 @@ impl Check for C06 {
         ]
     }
     fn probes(&self) -> Vec<&'static str> {
-        vec!["end/eof/registered", "end/reset/registered", "end/quit/registered", "end/kill/other", "end/bad_utf8/registered", "fault/half_open", "victim_last_member", "victim_had_rank", "victim_oper", "victim_invited_other"]
+        vec!["end/eof/registered", "end/reset/registered", "end/quit/registered", "end/kill/other", "end/bad_utf8/registered", "end/too_long/registered", "fault/half_open", "victim_last_member", "victim_had_rank", "victim_oper", "victim_invited_other"]
     }
 
     fn gen(&self, _run_seed: u64, idx: u64, _tier: Tier) -> Trace {
@@ -155,6 +155,13 @@ impl Check for C06 {
                     chans.push(ch.clone());
                 }
             }
+            // the victim's nickname may already have a WHOWAS history of some depth (the same for every kind/position of a history)
+            let depth = [0usize, 0, 0, 0, 1, 2, 5, 9, 13][Rng::new(crate::rt::mix(hseed, 0xD3)).below(9)];
+            for i in 0..depth {
+                g.say(victim, &format!("NICK tmp{}", i % 2));
+                g.say(victim, &format!("NICK {}", vnick));
+            }
+            params.insert("whowas_depth".to_string(), depth.to_string());
             // observer joins nothing new: it just asks. Before:
             audit(&mut g, obs, &nicks, &chans, false);
             g.mark("ctx:C06");
@@ -201,6 +208,14 @@ impl Check for C06 {
                 "self_kill" => {
                     g.say(victim, "OPER root rootpw");
                     g.say(victim, &format!("KILL {} :seppuku", vnick));
+                }
+                "line_too_long" => {
+                    let l = format!("PRIVMSG {} :{}\r\n", g.m.conns[obs].nick.clone().unwrap(), "w".repeat(2000 + r2.below(200)));
+                    g.emit(vec![Action::Send { c: victim, d: esc(l.as_bytes()) }]);
+                }
+                "too_long_unterminated" => {
+                    let l = format!("PRIVMSG {} :{}", g.m.conns[obs].nick.clone().unwrap(), "w".repeat(2000 + r2.below(200)));
+                    g.emit(vec![Action::Send { c: victim, d: esc(l.as_bytes()) }]);
                 }
                 "bad_utf8" => {
                     g.emit(vec![Action::Send { c: victim, d: esc(b"PRIVMSG x :\xff\xfe broken\r\n") }]);
